@@ -16,6 +16,8 @@ unknown replacement type, max-elements 0).  The general random schemas of schema
               of the dump has nerr > 0 or naugments > 0
   (c) clean   model says error <=> implementation says error (a lost error shows up as ok-vs-err); part of (a), counted
               separately
+  (d) side    the two computable hypotheses of theorem C04_T1_choice_clause_partial (`final_applied = 0`,
+              `heights_okb = true`; extracted from coq/Spec/C04.v, command c04side) hold on every case the model calls clean
 """
 import random
 import shutil
@@ -125,7 +127,7 @@ def compose(rnd):
         m0["includes"].append("m0s1")
         s1["imports"] = list(m0["imports"])
     feats = ["uses_in_uses", "uses_in_augment", "augment_into_uses", "sub_augments", "shorthand_everywhere", "ns_under_list",
-             "augment_chain", "lazy_io", "deviate_attrs", "rpc_choice_input"]
+             "augment_chain", "lazy_io", "deviate_attrs", "rpc_choice_input", "augment_via_implicit_case"]
     late = ["two_augments_same", "two_augments_modules", "augment_vs_uses", "augment_leaf_target", "augment_missing",
             "dev_missing", "dev_min_nonlist", "dev_add_default_twice", "dev_delete_mismatch", "dev_ns_twice", "dev_bad_type",
             "dev_max_zero", "dup_in_uses", "unknown_type_rpc_input", "choice_dup_after_fix", "sub_dup", "ns_on_input",
@@ -265,6 +267,21 @@ def f_deviate_attrs(b, m0, m1, s1):
                                                        dict(kind="delete", min=1), dict(kind="delete", max=4)])]))
     dv.append((path("x0", base + [li[1]]), [r.choice([dict(kind="replace", min=0), dict(kind="add", max=MAXU64, cfg=False),
                                                        dict(kind="delete", min=1, max=4)])]))
+
+
+def f_augment_via_implicit_case(b, m0, m1, s1):
+    """the augment path leads through the implicit case of a shorthand member (exists only after FixChoice) into a
+    choice / a container: Process has to fix up the choices, retry, and fix up what the augment added"""
+    inner_ch = ("choice", b.n("ch"), None, None, None, [b.leaf()])
+    member = b.cont([inner_ch, b.leaf()])
+    outer = ("choice", b.n("ch"), None, None, None, [member, b.leaf()])
+    holder = b.cont([outer])
+    m0["body"].append(holder)
+    src, pfx = b.r.choice([(m0, "p0"), (m1, "x0")])
+    base = [holder[1], outer[1], member[1], member[1]]
+    src["augments"].append((path(pfx, base + [inner_ch[1]]), [b.leaf(), b.cont([b.shorthand_choice()])]))
+    if b.r.random() < 0.5:
+        m1["augments"].append((path("x0", base), [b.shorthand_choice()]))
 
 
 def f_rpc_choice_input(b, m0, m1, s1):
@@ -524,8 +541,19 @@ def run(res, tier, seed, proof):
             stats["flags"] += 1
             violation("clean result carries recorded errors or pending augments: %s" % "; ".join(bad[:3]),
                       dict(rep, kind="flags", flags=bad[:10]))
+    # side conditions of theorem C04_T1_choice_clause_partial, evaluated by the extracted specification on every case
+    # the model calls clean: the reporting pass applied nothing, no depth measurement was cut off
+    side_idx = [i for i, m in enumerate(ml) if m.startswith("ok")]
+    side = lib.run_ml(["c04side" + ml_lines[i][len("resolve"):] for i in side_idx])
+    stats["side_conditions_checked"] = len(side_idx)
+    for i, o in zip(side_idx, side):
+        if o != "applied=0 heights=ok":
+            stats["side_conditions_failed"] = stats.get("side_conditions_failed", 0) + 1
+            violation("a side condition of C04_T1_choice_clause_partial does not hold on a clean case: %s" % o,
+                      dict(kind="side-condition", ml_case=ml_lines[i], go_case=go_lines[i], features=cases[i][2], obs=o,
+                           text="\n".join(sg.render_module(x) for x in cases[i][0])))
     cov = dict(
-        evaluations=len(cases), distinct_nontrivial=stats["ok"] + stats["err"],
+        evaluations=len(cases) + len(side_idx), distinct_nontrivial=stats["ok"] + stats["err"],
         rule="composed module sets (m0, m1 importing m0 [and back], optional submodule m0s1): 2..5 features out of uses-in-uses, "
              "uses-in-augment, augment-into-uses-expanded-node, submodule-with-augments, shorthand-choice-everywhere (container, "
              "list, case, grouping, augment, rpc and action input/output, notification), not-supported-under-list, augment "
